@@ -445,6 +445,8 @@ mod verif_nat {
         assert!(a.partial_cmp(&b) == Some(Ordering::Equal));
         assert!(a <= b && a >= b && !(a < b));
     }
+    /// (check_cmp asserts both `a <=> b` and `b <=> a`, so only shape pairs LA <= LB are instantiated; the
+    /// far-apart harness is asymmetric and gets the three mirrored shape pairs separately below)
     macro_rules! cmp_h {
         ($($name:ident, $far:ident: $la:literal, $lb:literal;)*) => {$(
             #[kani::proof]
@@ -457,8 +459,23 @@ mod verif_nat {
     }
     cmp_h! {
         cmp_1_1, cmp_far_1_1: 1, 1; cmp_1_2, cmp_far_1_2: 1, 2; cmp_1_3, cmp_far_1_3: 1, 3;
-        cmp_2_1, cmp_far_2_1: 2, 1; cmp_2_2, cmp_far_2_2: 2, 2; cmp_2_3, cmp_far_2_3: 2, 3;
-        cmp_3_1, cmp_far_3_1: 3, 1; cmp_3_2, cmp_far_3_2: 3, 2; cmp_3_3, cmp_far_3_3: 3, 3;
+        cmp_2_2, cmp_far_2_2: 2, 2; cmp_2_3, cmp_far_2_3: 2, 3; cmp_3_3, cmp_far_3_3: 3, 3;
+    }
+
+    #[kani::proof]
+    #[kani::unwind(34)]
+    fn cmp_far_2_1() {
+        check_cmp_far::<2, 1>()
+    }
+    #[kani::proof]
+    #[kani::unwind(34)]
+    fn cmp_far_3_1() {
+        check_cmp_far::<3, 1>()
+    }
+    #[kani::proof]
+    #[kani::unwind(34)]
+    fn cmp_far_3_2() {
+        check_cmp_far::<3, 2>()
     }
 
     // ================================================================== Shl / Shr (any exponent, any shift amount)
@@ -672,7 +689,6 @@ mod verif_nat {
         add_inline_e5_e68: 5, 68;          // gap 63: overlapping digits
         add_inline_e5_e69: 5, 69;          // gap 64: digit aligned, no overlap
         add_inline_e5_e70: 5, 70;          // gap 65: no overlap, start_bit 1
-        add_inline_e70_e5: 70, 5;          // same, operands swapped
         add_inline_emax_gap: u64::MAX - 2, u64::MAX - 5;
     }
 
